@@ -200,12 +200,14 @@ class Check:
                         break
         return out
 
-    def gen_parallel(self, jobs, timeout=1500, heap="4g"):
+    def gen_parallel(self, jobs, timeout=1500, heap="4g", seeds=None):
         """jobs: list of (module, env) with env["VOUT"] set.  Runs the TLC generators
         concurrently (one JVM each).  Returns total GEN count."""
+        idx = {id(j): i for i, j in enumerate(jobs)}
         def one(job):
             module, env = job
-            rc, out = self._tlc(module + ".tla", module + ".cfg", env, 1, timeout, heap, "gen")
+            extra = ("-seed", str(seeds[idx[id(job)]])) if seeds else ()
+            rc, out = self._tlc(module + ".tla", module + ".cfg", env, 1, timeout, heap, "gen", extra)
             if "No error has been found" not in out:
                 raise Inconclusive("generator %s %s failed (rc=%d):\n%s" % (module, {k: v for k, v in env.items() if k != "VOUT"}, rc, out[-2500:]))
             m = re.search(r'<<\s*"GEN",\s*(\d+)', out)
